@@ -653,7 +653,9 @@ static std::string step(const Toks& t)
 {
 	if (t[0] == "stress" && t.size() == 4) {
 		int nth = (int)num(t[2]), it = (int)num(t[3]);
+#ifdef ASL_VERIF
 		asl_verif_hook() = 0;
+#endif
 		std::string r = "bad-op";
 		if (t[1] == "array") r = stressHandles<HArray >(nth, it);
 		else if (t[1] == "map") r = stressHandles<HMap >(nth, it);
